@@ -60,14 +60,25 @@ class Report:
         return cond
 
     def floor(self, rule: str, what: str, found: int, floor: int) -> None:
-        """Instances discovered must not fall below the hand-confirmed floor: a vanished anchor is never a pass."""
-        self.floors.append({"rule": rule, "what": what, "found": found, "floor": floor})
-        if found < floor:
-            if any((not i.ok) and i.rule == rule for i in self.items):
-                # the shortfall is already explained by a reported violation of this very rule
-                self.notes.append(f"{rule}: {found} {what} (< floor {floor}); a violation of the rule is reported")
-                return
-            raise AnalysisError(f"{rule}: only {found} {what} discovered, floor is {floor} (anchor vanished or matcher rotted)")
+        """Instances discovered must not fall below a hand-confirmed floor: a vanished anchor is never a pass.
+
+        ``floor`` is the count confirmed on the pinned tree.  The enforced bound keeps slack for behaviour-preserving refactorings
+        (helpers that merge call sites): 60 % of the confirmed count once that count is 5 or more.  Floors are enforced after all
+        rules ran (``enforce_floors``) so that a violation which *explains* a shortfall is reported as a violation, not as a
+        broken checker.
+        """
+        import math
+
+        eff = floor if floor < 5 else max(3, math.ceil(floor * 0.6))
+        self.floors.append({"rule": rule, "what": what, "found": found, "confirmed_on_pinned_tree": floor, "floor": eff})
+
+    def enforce_floors(self) -> None:
+        for f in self.floors:
+            if f["found"] < f["floor"]:
+                if any((not i.ok) and i.rule == f["rule"] for i in self.items):
+                    self.notes.append(f"{f['rule']}: {f['found']} {f['what']} (< floor {f['floor']}); a violation of the rule is reported")
+                    continue
+                raise AnalysisError(f"{f['rule']}: only {f['found']} {f['what']} discovered, floor is {f['floor']} (anchor vanished or matcher rotted)")
 
     def note(self, msg: str) -> None:
         self.notes.append(msg)
